@@ -295,10 +295,17 @@ CLAIMED["C10"] = dict(
          "exclude all and const accessors exclude writers, an element is freed only by its unlinker after taking its lock as writer, one "
          "grower at a time. Tie: generated constants, white-box differential of bucket/segment arithmetic, E-SHIM on the real "
          "concurrent_hash_map with critical-section events replayed as enabled model transitions and the proof invariant evaluated on the "
-         "replayed states, independent per-key linearizability and holder monitors, random + bounded-preemption DFS.",
-    note="Trusted: Lean kernel, standard axioms, E-SHIM, harness/c10, sampled correspondence. Partial by design: bucket and element locks are "
-         "abstracted to the reader/writer specification proved for spin_rw_mutex in C08 (a critical section is one step).",
-    technique="Lean 4 proof (32-file inductive invariant + ghost-history linearizability) + E-SHIM event replay + linearizability monitor",
+         "replayed states, independent per-key linearizability and holder monitors, random + bounded-preemption DFS. Session 3: a refined "
+         "model whose bucket and element mutexes are the word-level spin_rw_mutex model of C08 (one step per atomic access, executed by the "
+         "C08 step function itself) with an inductive coupling invariant and a refinement to the critical-section model, so every earlier "
+         "theorem holds at lock-word granularity; plus: re-search after a non-atomic upgrade, restart of rehash_bucket after a contended "
+         "upgrade, lock order (element locks only try-acquired under a bucket lock), erase waits for accessors, mask-race safety, exact "
+         "size; every lock-word / node_list / mask / size access of the real map is replayed on it; statement skeletons of 12 functions "
+         "regenerated; hint-guided schedules with path-coverage accounting.",
+    note="Trusted: Lean kernel, standard axioms, E-SHIM, harness/c10, checks/c10gen.py, sampled correspondence. Deadlock freedom is _partial: "
+         "the lock order is proved, progress on a single contended word is by C08 plus the deadlock monitor. Code under a bucket lock between "
+         "atomic accesses is one model step; sequentially consistent interleavings.",
+    technique="Lean 4 proof (inductive invariant + ghost-history linearizability; superposition refinement with the C08 word model instantiated per lock + coupling invariant) + regenerated skeletons + E-SHIM access-level replay + linearizability monitor",
     design="§3 C10")
 CLAIMED["C12"] = dict(
     text="Lean 4 theorems for any number of threads and every schedule at atomic-access granularity: the insert-only CAS list is always sorted, "
